@@ -243,6 +243,44 @@ func registerLife(prop, title string) {
 			if tier == "thorough" {
 				pb = 3
 			}
+			if prop == "C03" || prop == "C01" {
+				// registrations whose constructors share code AND signature (closures of one factory; here: reflect.MakeFunc
+				// functions of one type) resolved concurrently: whatever godi caches per function must not leak from one
+				// registration's construction into the other's
+				tspec := kit.Spec{Regs: []kit.Reg{
+					{ID: 0, Life: "singleton", Outs: []kit.Out{{T: "D0"}}},
+					{ID: 1, Life: "transient", Outs: []kit.Out{{T: "D1"}}, Deps: []kit.Dep{{T: "D0"}}},
+					{ID: 2, Life: "transient", Outs: []kit.Out{{T: "P5"}}, Name: "x", Deps: []kit.Dep{{T: "D1"}}},
+					{ID: 3, Life: "transient", Outs: []kit.Out{{T: "P5"}}, Name: "y", Deps: []kit.Dep{{T: "D1"}}},
+					{ID: 4, Life: "scoped", Outs: []kit.Out{{T: "P5"}}, Name: "z", Deps: []kit.Dep{{T: "D1"}}},
+					{ID: 5, Life: "singleton", Outs: []kit.Out{{T: "P5"}}, Name: "s", Deps: []kit.Dep{{T: "D1"}}},
+				}}
+				tm := NewModel(&tspec)
+				mk := func(name string, threads ...[]Op) *Scenario {
+					return &Scenario{Name: prop + "-conc/same-signature-" + name, Spec: tspec, Setup: []Op{{Kind: "scope", Bind: "s1"}, {Kind: "scope", Bind: "s2"}}, Threads: threads,
+						Final: []Op{{Kind: "settle"}, {Kind: "close", Scope: ""}, {Kind: "settle"}}}
+				}
+				g := func(sc, key string) []Op { return []Op{{Kind: "get", Scope: sc, T: "P5", Key: key}} }
+				for _, sc := range []*Scenario{
+					mk("x+y", g("s1", "x"), g("s1", "y")),
+					mk("x+z-other-scope", g("s1", "x"), g("s2", "z")),
+					mk("y+x+singleton", g("s1", "y"), append(g("s2", "x"), g("s2", "s")...)),
+				} {
+					sc := sc
+					jobs = append(jobs, mc.Job{Name: sc.Name, Weight: 40, Run: func(r *mc.Report) {
+						exploreScenario(r, sc, mc.Bounds{Preempt: pb}, func(e *Env, s *vsched.Sched) []Finding {
+							var keep []Finding
+							for _, f := range lifeOracle(e, tm) {
+								switch f.F["clause"] {
+								case "wrong-producer", "wrong-argument", "transient-reused", "transient-constructed-not-delivered", "singleton-ctor-count", "singleton-two-instances", "double-construct", "registered-identity-unresolvable":
+									keep = append(keep, f)
+								}
+							}
+							return keep
+						})
+					}})
+				}
+			}
 			if prop == "C02" {
 				// ONE scoped registration behind two interface aliases, resolved concurrently through different aliases
 				aspec := kit.Spec{Regs: []kit.Reg{
